@@ -65,3 +65,46 @@ def qkeras_types(tier, rng):
       out.append(("quantized_relu_po2(%d,%s)" % (b, mv), Q.quantized_relu_po2(b, mv)))
   out += [("fp32", "fp32"), ("fp16", "fp16"), ("int8", "int8")]
   return out
+
+
+# ----------------------------------------------------------------------------- floating-point cells (C16)
+
+def float_operands():
+  """(label, factory argument) of the floating-point operand types, through every route that builds one:
+  the default-quantizer strings, the `None` route (cfg.default_interm_quantizer), and the
+  `quantizer_impl.FloatingPoint(bits)` class itself (cloned by make_quantizer)"""
+  from qkeras.qtools.quantized_operators import quantizer_impl
+  return [("fp16", "fp16"), ("fp32", "fp32"), ("None(default_interm_quantizer)", None),
+          ("FloatingPoint(bits=16)", quantizer_impl.FloatingPoint(bits=16)),
+          ("FloatingPoint(bits=32)", quantizer_impl.FloatingPoint(bits=32)),
+          ("FloatingPoint(bits=64)", quantizer_impl.FloatingPoint(bits=64))]
+
+
+def float_partner_operands():
+  """(label, factory argument) of the non-float partners of the floating-point cells: every mode, both
+  signednesses, and fixed-point types WIDER than the float widths (a width rule that forgets the
+  `is_floating_point` mask shows only there)"""
+  from qkeras import quantizers as Q
+  return [
+      ("int8", "int8"), ("int16", "int16"), ("int32", "int32"),
+      ("quantized_bits(4,1,keep_negative=1)", Q.quantized_bits(4, 1, keep_negative=1)),
+      ("quantized_bits(6,2,keep_negative=0)", Q.quantized_bits(6, 2, keep_negative=0)),
+      ("quantized_bits(1,0,keep_negative=1)", Q.quantized_bits(1, 0, keep_negative=1)),
+      ("quantized_bits(17,3,keep_negative=1)", Q.quantized_bits(17, 3, keep_negative=1)),
+      ("quantized_bits(24,8,keep_negative=1)", Q.quantized_bits(24, 8, keep_negative=1)),
+      ("quantized_bits(33,0,keep_negative=0)", Q.quantized_bits(33, 0, keep_negative=0)),
+      ("quantized_bits(48,16,keep_negative=1)", Q.quantized_bits(48, 16, keep_negative=1)),
+      ("quantized_bits(70,20,keep_negative=1)", Q.quantized_bits(70, 20, keep_negative=1)),
+      ("quantized_relu(3,2)", Q.quantized_relu(3, 2)),
+      ("quantized_relu(20,4)", Q.quantized_relu(20, 4)),
+      ("quantized_relu(4,1,negative_slope=0.25)", Q.quantized_relu(4, 1, negative_slope=0.25)),
+      ("quantized_relu(1,1)", Q.quantized_relu(1, 1)),
+      ("quantized_tanh(4)", Q.quantized_tanh(4)), ("quantized_ulaw(8,1)", Q.quantized_ulaw(8, 1)),
+      ("quantized_po2(4,None)", Q.quantized_po2(4, None)), ("quantized_po2(5,2)", Q.quantized_po2(5, 2)),
+      ("quantized_po2(8,0.25)", Q.quantized_po2(8, 0.25)),
+      ("quantized_relu_po2(4,None)", Q.quantized_relu_po2(4, None)),
+      ("quantized_relu_po2(6,16)", Q.quantized_relu_po2(6, 16)),
+      ("ternary()", Q.ternary()), ("stochastic_ternary()", Q.stochastic_ternary()),
+      ("binary()", Q.binary()), ("stochastic_binary()", Q.stochastic_binary()),
+      ("binary(use_01=1)", Q.binary(use_01=True)), ("bernoulli()", Q.bernoulli()),
+  ]
